@@ -392,6 +392,72 @@ def _splice_headers(P, rep, prefix, key, doing, with_decision):
     rep.floor("segments opened while %s" % doing, len(adds), 2 if with_decision else 1)
 
 
+BODY_TEXT_API = re.compile(r"(^|::)(join|concat|to_lowercase|to_uppercase|to_ascii_lowercase|to_ascii_uppercase|retain|remove|truncate|insert|insert_str|replace_range|drain)$")
+
+
+def _is_body_text(P, k, op, depth):
+    """the operand is (part of) a stored body line: what it is computed from is paired with the line's CodePoint, comes out of
+    document::code_text, or is a text parameter that a caller in builder::pass0 fills with such a value"""
+    b = P.body[k]
+    locs, consts, calls, places = MU.backward_slice(b, [op])
+    if any("code_text" in MU.callee_names(c)[1] for c in calls):
+        return True
+    tys = [P.tys(k, b["locals"][l]["ty"]) for l in locs]
+    if any("CodePoint" in x and ("str" in x or "String" in x) for x in tys):
+        return True
+    if depth >= 2 or "{closure#" in k:
+        return False
+    params = [l for l in locs if 1 <= l <= b["arg_count"] and any(x in P.tys(k, b["locals"][l]["ty"]) for x in ("str", "String"))]
+    for l in params:
+        for k2 in P.body:
+            if not k2.startswith("builder::pass0::"):
+                continue
+            for _, t2, _, tg2 in P.call_sites(k2):
+                if k in tg2 and len(t2["args"]) >= l and _is_body_text(P, k2, t2["args"][l - 1], depth + 1):
+                    return True
+    return False
+
+
+def body_text_verbatim(P, rep, prefix="C09.body-text|verbatim"):
+    """Between the stored body and the line parser the text of a body line is changed in one place only: the per-character walk that
+    puts the arguments in (decided by C09.placeholder).  Everywhere else in the macro pipeline (module builder::pass0) a line is copied
+    or left out whole: nothing there searches, splits, trims, joins or re-cases the text - what is a blank inside a quoted text and
+    what is layout is known to the grammar alone (document::code_text hands out the line without its trailing comment)."""
+    import rules_C14
+    sub = {k for k in P.body if re.match(r"^builder::pass0::\w+$", k) and
+           any(MU.callee_names(t)[1] == "std::string::String::push_str" for _, t, _, _ in P.call_sites(k))}
+    scope = sorted(k for k in P.body if k.startswith("builder::pass0::") and "#promoted" not in k and k.split("::{closure#")[0] not in sub)
+    n = 0
+    for k in scope:
+        b = P.body[k]
+        for bb, t, name, tg in P.call_sites(k):
+            full, rp = MU.callee_names(t)
+            if not t["args"] or b["blocks"][bb]["tspan"].get("exp"):
+                continue
+            if not (rules_C14.RAW_TEXT_API.search(rp) or BODY_TEXT_API.search(rp)):
+                continue
+            # only text: the receiver's type mentions str / String
+            a0 = t["args"][0]
+            pl = a0.get("copy") or a0.get("move")
+            aty = P.tys(k, b["locals"][pl["local"]]["ty"]) if pl is not None else ""
+            if pl is not None and pl["proj"] and not any(x in aty for x in ("str", "String")):
+                aty = "str?"
+            if not any(x in aty for x in ("str", "String", "char")):
+                continue
+            if not _is_body_text(P, k, t["args"][0], 0):
+                continue
+            n += 1
+            api = rp.rsplit("::", 1)[-1]
+            rep.ob("%s|%s|%s" % (prefix, k, api), False,
+                   "%s in %s works on the text of a line of a macro body (%s) outside the walk that puts the arguments in: blanks, quotes and letter "
+                   "case inside a quoted text or character constant are data, and only the grammar knows where those are" % (api, k, rp),
+                   loc=loc_of(b["blocks"][bb]["tspan"]))
+    rep.ob(prefix, n == 0,
+           "outside the argument walk the macro pipeline copies body lines whole: no text-inspecting or text-rewriting call in %d functions of builder::pass0" % len(scope) if n == 0 else
+           "%d call(s) in builder::pass0 look into or rewrite the text of body lines outside the argument walk" % n)
+    rep.floor("functions of the macro pipeline (builder::pass0)", len(scope), 10)
+
+
 def placeholder(P, rep, key):
     """`@n` stands for the text of operand n.  Two implementations are recognised: the one that searches the line for the text "@<index>"
     for every operand (format "@{}" of an enumerate() index), and the one that reads the line once (function `substitute`), which is
@@ -718,6 +784,7 @@ def run(tier):
         ok = bool(none) and all(p.exit == "Err" for p in none)
         rep.ob("C09.undefined", ok, "calling a macro that is not in the table is an error" if ok else "an undefined macro call does not fail (%s)" % [p.exit for p in none][:3])
         placeholder(P, rep, key)
+        body_text_verbatim(P, rep)
         # parse errors of the re-parsed body propagate
         prop = [p for p in paths if p.exit == "Err" and any(e[0] == 'propagate' and "parse_iter" in e[1] for e in p.events)]
         rep.ob("C09.body-errors", bool(prop), "an error while re-parsing the substituted body (e.g. a left-over @n) fails the build" if prop else
